@@ -66,6 +66,18 @@ def main():
                                            env=dict(os.environ, VERIF_SEED=os.environ.get("VERIF_SEED", "1"), VERIF_REPO=wt))
                         first = next((l for l in p.stdout.splitlines() if l.startswith(("VIOLATION", "OK", "KNOWN"))), "")
                         rec["checks"][cid] = {"exit": p.returncode, "first_line": first[:160], "wall_s": round(time.time() - t0)}
+            if not rec.get("obsolete") and not any(v["exit"] == 1 for v in rec["checks"].values()):
+                # not caught: does the change still break anything? (a later repair at another site can have neutralised
+                # it: the demonstration then passes with the patch applied)
+                demo = os.path.join(d, "demo_test.go")
+                pkg = meta.get("demo_package_dir") or "pkg/engine"
+                if os.path.exists(demo) and os.path.isdir(os.path.join(wt, pkg)):
+                    shutil.copy(demo, os.path.join(wt, pkg, "zz_seeded_demo_test.go"))
+                    tags = ["-tags", "verif"] if "go:build verif" in open(demo).read() else []
+                    rc, out = sh(["go", "test", "-vet=off", "-count=1"] + tags + ["-run", "ZZMut|Mut|Seeded|Demo", "./" + pkg + "/"], wt)
+                    rec["demo_fails_with_patch_now"] = rc != 0
+                    if rc == 0:
+                        rec["obsolete"] = "the demonstration passes with the patch applied to the current tree (neutralised by a later repair)"
         finally:
             subprocess.run(["git", "-C", "/repo", "worktree", "remove", "--force", wt], capture_output=True)
             shutil.rmtree(wt, ignore_errors=True)
